@@ -181,7 +181,7 @@ theorem plOk_begin (σ : C02St) (o h : Nat) (k : OpKind) (pl : Payload) (hpl : p
   cases k <;> simp [planPl] at hpl <;> subst hpl <;>
     simp [plOk, lookup, OpKind.isCall, OpKind.msg?]
 
-theorem qinv_step {w : Wiring} {s s' : AState} {σ : C02St} {l : Label} (hf : freshFor σ l)
+theorem qinv02_step {w : Wiring} {s s' : AState} {σ : C02St} {l : Label} (hf : freshFor σ l)
     (hs : step w s l = some s') (hq : ∀ e ∈ s.chan.queue, plOk σ e.pl = true)
     (hp : phaseOk σ s.phase = true) :
     (∀ e ∈ s'.chan.queue, plOk (next02 σ l) e.pl = true) ∧ phaseOk (next02 σ l) s'.phase = true := by
@@ -189,7 +189,7 @@ theorem qinv_step {w : Wiring} {s s' : AState} {σ : C02St} {l : Label} (hf : fr
   · cases l <;> simp [Label.isBegin] at hb
     rename_i o h k
     simp only [step] at hs
-    obtain ⟨_, hph, st, _, hout⟩ := stepBegin_spec hs
+    obtain ⟨_, hph, st, _, hout⟩ := stepBegin_spec02 hs
     refine ⟨?_, by rw [hph]; exact phaseOk_next02 hf hp⟩
     cases hout with
     | refused e _ hc _ => rw [hc]; intro e he; exact plOk_next02 hf (hq e he)
